@@ -52,6 +52,19 @@ fn main() {
     ctx.run_slice(Slice::new(format!("structured-triples[{}^3]", n3), n3 * n3 * n3, |i, loc| {
         check_assoc::<B>(&st3[(i / (n3 * n3)) as usize], &st3[((i / n3) % n3) as usize], &st3[(i % n3) as usize], loc)
     }));
+    // many pending unifications (repeated and distinct), around powers of two: all pairs and the unit laws
+    let mut many: Vec<ohmc_core::plain::PLax<u8, u8>> = vec![ohmc_core::plain::PLax::strict(ohmc_core::plain::POpen::empty())];
+    for k in [1usize, 2, 3, 4, 7, 8, 9, 15, 16, 17, 18, 31, 32, 33, 64, 65] {
+        many.push(ohmc_core::plain::PLax { open: ohmc_core::plain::POpen { nodes: vec![0, 0], edges: vec![], s: vec![0], t: vec![1] }, quot: vec![(0, 1); k] });
+        many.push(ohmc_core::plain::PLax { open: ohmc_core::plain::POpen { nodes: vec![0; 3], edges: vec![], s: vec![2], t: vec![] }, quot: (0..k).map(|i| (i % 3, (i + 1) % 3)).collect() });
+    }
+    let nm = many.len() as u64;
+    ctx.run_slice(Slice::new(format!("lax-many-pending-pairs[{}^2]", nm), nm * nm, |i, loc| {
+        check_lax_pair(&many[(i / nm) as usize], &many[(i % nm) as usize], loc);
+        if i % nm == 0 {
+            check_lax_unit(&many[(i / nm) as usize], loc);
+        }
+    }));
     let meta = Meta {
         rule: "all pairs / triples / single diagrams of the listed universes (strict, and lax with pending unification pairs); exact comparison of the decoded result (plus deep well-formedness of every raw field) with the juxtaposition computed on the plain model; non-trivial = both operands non-empty and the right operand has something to shift".into(),
         bounds: "strict pairs: <=2 nodes, <=1 edge, arity <=2, 2+2 labels, interfaces <=1 (quick) / <=2 (thorough); unit: <=3 nodes, <=2 edges; triples: <=2 nodes, <=1 edge of arity <=1; lax: same with <=1-2 pending pairs".into(),
